@@ -1,4 +1,5 @@
 import CallbagModel.Script
+import CallbagModel.Spec
 import CallbagModel.Ops.Relay
 import CallbagModel.Ops.Take
 import CallbagModel.Ops.Merge
@@ -23,14 +24,29 @@ structure Inst where
   β : Type
   M : Machine St Loc Int β
   fb : β → String
+  pb : String → Option β
   nSinks : Nat := 1
+  /-- the operator's functional specification (Spec.lean), evaluated on a trace cut where the environment has control -/
+  spec : Option (List (Ev Int β) → Bool) := none
+  /-- the history class the specification is stated for (C12: no nested fan-out) -/
+  specDomain : List (Ev Int β) → Bool := fun _ => true
 
 def parseIntList (s : String) : Option (List Int) :=
   let inner := ((s.drop 1).dropEnd 1).toString
   if inner.isEmpty then some [] else (inner.splitOn ",").mapM String.toInt?
 
-def mkInt {St Loc} (M : Machine St Loc Int Int) (nSinks : Nat := 1) : Inst :=
-  { St := St, Loc := Loc, β := Int, M := M, fb := fmtInt, nSinks := nSinks }
+def mkInt {St Loc} (M : Machine St Loc Int Int) (nSinks : Nat := 1) (spec : Option (List (Ev Int Int) → Bool) := none)
+    (dom : List (Ev Int Int) → Bool := fun _ => true) : Inst :=
+  { St := St, Loc := Loc, β := Int, M := M, fb := fmtInt, pb := String.toInt?, nSinks := nSinks, spec := spec, specDomain := dom }
+
+def relaySpec {σ} (k : Relay.Kind σ Int Int) : Option (List (Ev Int Int) → Bool) := some (relayOk k.xfer k.seed)
+
+/-- no upstream delivery begins while a delivery by the operator is open (C12's quantifier) -/
+def noNestedFanoutTr {α β} : List (Ev α β) → Bool
+  | [] => true
+  | .inp (.srcDown _ _) :: t =>
+      !(openCalls t).any (fun f => match f with | some (.down _ _) => true | _ => false) && noNestedFanoutTr t
+  | _ :: t => noNestedFanoutTr t
 
 def scanLin (b : Int) (acc x : Int) : Int := (acc * b + x) % 1000003
 
@@ -41,26 +57,27 @@ def iterNext (len : Option Nat) (pos : Nat) : Option (Int × Nat) :=
 
 def instOf (name : String) : Option Inst :=
   match name.splitOn ":" with
-  | ["map", "add", k] => k.toInt?.map fun k => mkInt (Relay.machine (Relay.map (· + k)))
-  | ["map", "mul", k] => k.toInt?.map fun k => mkInt (Relay.machine (Relay.map (· * k)))
+  | ["map", "add", k] => k.toInt?.map fun k => mkInt (Relay.machine (Relay.map (· + k))) 1 (relaySpec (Relay.map (· + k)))
+  | ["map", "mul", k] => k.toInt?.map fun k => mkInt (Relay.machine (Relay.map (· * k))) 1 (relaySpec (Relay.map (· * k)))
   | ["filter", "mod", m, r] => match m.toInt?, r.toInt? with
-    | some m, some r => some (mkInt (Relay.machine (Relay.filter fun x => x % m == r)))
+    | some m, some r => some (mkInt (Relay.machine (Relay.filter fun x => x % m == r)) 1 (relaySpec (Relay.filter fun x => x % m == r)))
     | _, _ => none
   | ["scan", "lin", b, s] => match b.toInt?, s.toInt? with
-    | some b, some s => some (mkInt (Relay.machine (Relay.scan (scanLin b) s)))
+    | some b, some s => some (mkInt (Relay.machine (Relay.scan (scanLin b) s)) 1 (relaySpec (Relay.scan (scanLin b) s)))
     | _, _ => none
-  | ["skip", n] => n.toNat?.map fun n => mkInt (Relay.machine (Relay.skip n))
-  | ["take", n] => n.toNat?.map fun n => mkInt (Take.machine Int n)
-  | ["take0", n] => n.toNat?.map fun n => mkInt (Take.machine Int n false)
-  | ["merge", n] => n.toNat?.map fun n => mkInt (Merge.machine Int n true)
-  | ["merge0", n] => n.toNat?.map fun n => mkInt (Merge.machine Int n false)
-  | ["concat", n] => n.toNat?.map fun n => mkInt (Concat.machine Int n)
+  | ["skip", n] => n.toNat?.map fun n => mkInt (Relay.machine (Relay.skip n)) 1 (relaySpec (Relay.skip n))
+  | ["take", n] => n.toNat?.map fun n => mkInt (Take.machine Int n) 1 (some (takeOk n))
+  | ["take0", n] => n.toNat?.map fun n => mkInt (Take.machine Int n false) 1 (some (takeOk n))
+  | ["merge", n] => n.toNat?.map fun n => mkInt (Merge.machine Int n true) 1 (some (mergeOk n))
+  | ["merge0", n] => n.toNat?.map fun n => mkInt (Merge.machine Int n false) 1 (some (mergeOk n))
+  | ["concat", n] => n.toNat?.map fun n => mkInt (Concat.machine Int n) 1 (some (concatOk n))
   | ["combine", n] => n.toNat?.map fun n =>
-      { St := Combine.St Int, Loc := Combine.Loc Int, β := List Int, M := Combine.machine Int n, fb := fmtList }
-  | ["flatten"] => some (mkInt (Flatten.machine Int))
-  | ["share", k] => k.toNat?.map fun k => mkInt (Share.machine Int) k
-  | ["fromiter", "inf"] => some (mkInt (FromIter.machine Int (iterNext none) 0))
-  | ["fromiter", n] => n.toNat?.map fun n => mkInt (FromIter.machine Int (iterNext (some n)) 0)
+      { St := Combine.St Int, Loc := Combine.Loc Int, β := List Int, M := Combine.machine Int n, fb := fmtList, pb := parseIntList,
+        spec := some (combineOk n) }
+  | ["flatten"] => some (mkInt (Flatten.machine Int) 1 (some flattenOk))
+  | ["share", k] => k.toNat?.map fun k => mkInt (Share.machine Int) k (some shareOk) noNestedFanoutTr
+  | ["fromiter", "inf"] => some (mkInt (FromIter.machine Int (iterNext none) 0) 1 (some (fromIterOk (iterNext none) 0)))
+  | ["fromiter", n] => n.toNat?.map fun n => mkInt (FromIter.machine Int (iterNext (some n)) 0) 1 (some (fromIterOk (iterNext (some n)) 0))
   | ["foreach"] => some (mkInt (ForEach.machine Int))
   | _ => none
 
